@@ -205,6 +205,17 @@ split; [|split=> //].
   by move=> H; apply: Ha; apply: (herm_sandwich_inv conjK HP H).
 by case: au Hu=> [|[]] //=; rewrite (unitary_sandwich conjK A HP).
 Qed.
+Lemma expand_permute_sound n e (P A : 'M[R]_n) : is_unitary P -> sound_a e A ->
+  sound_h (expand_permute_herm e) (P *m A *m dag P) /\
+  sound_u (expand_permute_unit e) (P *m A *m dag P) /\ expand_permute_data = DPermute.
+Proof.
+move=> HP; rewrite /sound_a /expand_permute_herm /expand_permute_unit.
+move: (fa_h e) (fa_u e)=> ah au [Ha Hu].
+split; [|split=> //].
+  case: ah Ha=> [|[]] //= Ha; first exact: herm_sandwich.
+  by move=> H; apply: Ha; apply: (herm_sandwich_inv conjK HP H).
+by case: au Hu=> [|[]] //=; rewrite (unitary_sandwich conjK A HP).
+Qed.
 Lemma transform_sound n e (S A : 'M[R]_n) : is_unitary S -> sound_a e A ->
   sound_h (transform_herm e) (S *m A *m dag S) /\ sound_u (transform_unit e) (S *m A *m dag S)
   /\ transform_data = DTransform.
